@@ -251,8 +251,16 @@ impl<const IV: u64> Sys<IV> {
         fmt_bag(st.get_latest(&handle(h)))
     }
 
-    /// Executes one op line; returns the observation.
+    /// Executes one op line; returns the observation.  A panic inside the store (an `apply` outside
+    /// its domain, a poisoned lock afterwards) is an observation too: `ret=panic`.
     pub fn exec(&mut self, op: &str) -> String {
+        match std::panic::catch_unwind(std::panic::AssertUnwindSafe(|| self.exec_inner(op))) {
+            Ok(obs) => obs,
+            Err(_) => "ret=panic".to_string(),
+        }
+    }
+
+    fn exec_inner(&mut self, op: &str) -> String {
         let w: Vec<&str> = op.split_whitespace().collect();
         let inst = |s: &str| s.parse::<usize>().expect("instance");
         match w.as_slice() {
@@ -650,6 +658,11 @@ fn gen_case<const IV: u64>(out: &mut dyn Write, disk: bool, seed: u64, rng: &mut
 }
 
 fn main() {
+    // panics of the code under test are caught per operation; keep stderr short
+    std::panic::set_hook(Box::new(|info| {
+        let msg = info.to_string();
+        eprintln!("panic: {}", msg.lines().next().unwrap_or(""));
+    }));
     let args = Args::parse();
     if args.ops.is_none() && args.positional.iter().any(|p| p == "--conc") {
         conc::main(&args);
@@ -658,11 +671,15 @@ fn main() {
     let mut out = args.writer();
     if let Some(cases) = args.read_cases() {
         for (i, (id, ops)) in cases.iter().enumerate() {
-            // the first op line of a case is `config iv=… backend=…`
+            // the first op line of a case is `config iv=… backend=…`; a shrunk case may have lost
+            // it, then it is recovered from the case id
             let cfg = ops.first().cloned().unwrap_or_default();
             let disk = cfg.contains("backend=disk") || (!cfg.starts_with("config") && id.contains("disk"));
             let iv0 = cfg.contains("iv=0") || (!cfg.starts_with("config") && id.contains("iv0"));
             writeln!(out, "case {id}").unwrap();
+            if !cfg.starts_with("config") {
+                writeln!(out, "config iv={} backend={} => ret=ok", if iv0 { 0 } else { 1 }, if disk { "disk" } else { "mem" }).unwrap();
+            }
             if iv0 {
                 run_ops::<0>(&mut *out, disk, 0xA66 + i as u64, ops);
             } else {
@@ -682,6 +699,8 @@ fn main() {
             } else {
                 gen_case::<1>(&mut *out, disk, seed, &mut r, args.len);
             }
+            // a `process::exit` inside the code under test must not lose the cases before
+            out.flush().unwrap();
         }
     }
     out.flush().unwrap();
